@@ -1,4 +1,4 @@
-module spike5
+module spike6
 
 go 1.23
 
